@@ -4,6 +4,7 @@ import (
 	"fmt"
 	"go/ast"
 	"go/constant"
+	"go/token"
 	"go/types"
 	"math/big"
 	"strconv"
@@ -608,6 +609,31 @@ func (c *SpecCtx) ssaName(name string) (TV, bool) {
 					}
 				}
 			}
+		}
+		return TV{}, false
+	}
+	if name == "$range" {
+		// the slice (or string) walked by the innermost enclosing range loop
+		for d := b; d != nil; d = d.Idom() {
+			var idxPhi *ssa.Phi
+			for _, in := range d.Instrs {
+				if p, ok := in.(*ssa.Phi); ok && p.Comment == "rangeindex" {
+					idxPhi = p
+				}
+			}
+			if idxPhi == nil {
+				continue
+			}
+			for _, in := range d.Instrs {
+				if bo, ok := in.(*ssa.BinOp); ok && bo.Op == token.LSS {
+					if call, ok := bo.Y.(*ssa.Call); ok {
+						if bi, ok := call.Call.Value.(*ssa.Builtin); ok && bi.Name() == "len" {
+							return get(call.Call.Args[0], false)
+						}
+					}
+				}
+			}
+			return TV{}, false
 		}
 		return TV{}, false
 	}
